@@ -174,7 +174,9 @@ func startCases(w *world) []kase {
 
 func specialCases(w *world, check string) []kase {
 	var out []kase
-	out = append(out, startCases(w)...)
+	if check != "C05" {
+		out = append(out, startCases(w)...) // deviations without a malformed message: nothing for C05 to judge
+	}
 	field, rnd := polynomialField(w.sc.Proto)
 	if field == "" {
 		return out
